@@ -4226,6 +4226,16 @@ PERSISTENT_DATA_AuditCommands_Unmarshal(PERSISTENT_DATA *data, BYTE **buffer, IN
         rc = UINT16_Unmarshal(&array_size, buffer, size);
     }
     if (rc == TPM_RC_SUCCESS) {
+        /* the size comes from the state blob: no empty array (buf[] below) and
+         * nothing larger than what it is copied into */
+        if (array_size == 0 ||
+            (blob_version > 4 && array_size > sizeof(data->auditCommands))) {
+            TPMLIB_LogTPM2Error("PERSISTENT_DATA: Bad array size for auditCommands; "
+                                "got %u\n", array_size);
+            rc = TPM_RC_SIZE;
+        }
+    }
+    if (rc == TPM_RC_SUCCESS) {
         BYTE buf[array_size];
 
         rc = Array_Unmarshal(buf, array_size, buffer, size);
@@ -4236,7 +4246,6 @@ PERSISTENT_DATA_AuditCommands_Unmarshal(PERSISTENT_DATA *data, BYTE **buffer, IN
                                                    data->auditCommands, sizeof(data->auditCommands));
             } else {
                 memset(data->auditCommands, 0, sizeof(data->auditCommands));
-                assert(array_size <= sizeof(data->auditCommands));
                 memcpy(data->auditCommands, buf, array_size);
             }
         }
